@@ -629,6 +629,11 @@ class FakeS3:
                      upload_id=p.get('UploadId'))
         parsed = {'ResponseMetadata': {'HTTPStatusCode': 200}}
         size = self.api_sizes.get((p.get('Bucket'), p.get('Key')), 0) if hasattr(self, 'api_sizes') else 0
+        if op in ('PutObject', 'UploadPart'):
+            try:
+                rec['body_len'] = len(p.get('Body'))
+            except TypeError:
+                rec['body_len'] = None
         if op == 'HeadObject':
             parsed['ContentLength'] = size
         elif op == 'CreateMultipartUpload':
